@@ -320,7 +320,7 @@ def finish(r, checker_cmd, trusted, assumptions):
         body = dict(property=r.pid, seed=r.seed, tier=r.tier,
                     how_to_replay=f"VERIF_SEED={r.seed} ./check {r.pid} --tier {r.tier}   (each failing input below is a program text for pbhhg_py.main.main, or as described in its 'slice')",
                     broken_obligations=[dict(kind=k, what=t) for k, t in r.problems], failing_inputs=r.failing[:25], n_failing=len(r.failing))
-        json.dump(body, open(rp, "w", encoding="utf-8"), ensure_ascii=False, indent=1)
+        json.dump(body, open(rp, "w", encoding="utf-8", errors="backslashreplace"), ensure_ascii=False, indent=1)          # a failing input may hold a lone surrogate
         tail = "" if r.failing else " no-failing-input-found"
         print(f"VIOLATION property={r.pid} replay={rp}{tail}")
     ev = dict(property_id=r.pid, tier=r.tier, seed=r.seed, level="proof", wall_s=round(time.time() - r.t0, 1), violations=len(r.failing) + (1 if r.problems and not r.failing else 0),
@@ -328,5 +328,5 @@ def finish(r, checker_cmd, trusted, assumptions):
                             evaluations=r.cases, distinct_nontrivial=r.distinct, rule=" || ".join(r.rules), samples=r.samples[:12] or ["(no correspondence slice in this run)"],
                             input_distribution=r.dist, known_findings_seen=sorted(r.known_hits), broken=[f"{k}: {t}"[:300] for k, t in r.problems], **r.extra),
               assumptions=assumptions)
-    json.dump(ev, open(os.path.join(ROOT, "evidence", f"{r.pid}.json"), "w", encoding="utf-8"), ensure_ascii=False, indent=1)
+    json.dump(ev, open(os.path.join(ROOT, "evidence", f"{r.pid}.json"), "w", encoding="utf-8", errors="backslashreplace"), ensure_ascii=False, indent=1)
     return code
